@@ -48,8 +48,7 @@ def c05_events(p0: bool, t0: int, p1: bool, t1: int, p2: bool, t2: int, p3: bool
     S = W.stale_oracle(sh, P, TT, hf, ft)
     calls, writes, reads = W.expected_events(sh, S, sh.out)
     # reads that must fail: a missing value that this run does not (re)build first
-    rebuilt = lambda n: S[n] and (sh.roles[n] == "store" or bool(sh.preds[n]))  # noqa: E731
-    missing_needed = [n for n in reads if not P[n] and not rebuilt(n)]
+    missing_needed = W.missing_needed(sh, P, S, calls, reads)
     try:
         out = W.run(b, sh, w, fresh_time=W.FT(ft) if hf else None)
     except uberjob.CallError as e:
@@ -154,3 +153,158 @@ def c03_step(p0: bool, t0: int, p1: bool, t1: int, p2: bool, t2: int, p3: bool, 
 
 def _raw(v):
     return v
+
+
+# --------------------------------------------------------------------------------------------- C09
+def _phys_index(g, b, sh):
+    """Locate the store read / write calls of the physical plan: {j: node} by the store object they are bound to."""
+    wn, rn = {}, {}
+    for node in g.nodes():
+        if type(node) is not Call:
+            continue
+        if node.fn is W.LStore.write or node.fn is W.LStore.read:
+            args, _kw = uberjob.graph.get_argument_nodes(g, node)
+            st = args[0].value if args and type(args[0]) is Literal else None
+            for j in range(sh.n):
+                if b.stores[j] is st:
+                    tgt = wn if node.fn is W.LStore.write else rn
+                    if j in tgt:
+                        return None  # two write (or two read) calls for one store
+                    tgt[j] = node
+    return wn, rn
+
+
+def _reach(g, a, b_):
+    """a ~> b_ along edges of the physical graph (a != b_)."""
+    seen, todo = set(), [a]
+    while todo:
+        x = todo.pop()
+        for s in g.successors(x):
+            if s is b_:
+                return True
+            if s not in seen:
+                seen.add(s)
+                todo.append(s)
+    return False
+
+
+def c09_order(p0: bool, t0: int, p1: bool, t1: int, p2: bool, t2: int, p3: bool, t3: int, hf: bool, ft: int) -> bool:
+    """
+    Rebuilt stored values are written, then read back, before downstream use (normalising stores: read() returns
+    ('norm', written)).  Orderings are decided on the physical plan (a happens-before b in EVERY schedule iff the real
+    physical graph has a path a ~> b: engine contract C01) and cross-checked on the event log of the real run.
+
+    pre: t0 != t1 and t0 != t2 and t0 != t3 and t1 != t2 and t1 != t3 and t2 != t3
+    pre: ft != t0 and ft != t1 and ft != t2 and ft != t3
+    pre: t0 < 1000000000 and t1 < 1000000000 and t2 < 1000000000 and t3 < 1000000000 and ft < 1000000000
+    post: _
+    """
+    begin()
+    sh = SHAPE
+    P, TT = _state(p0, t0, p1, t1, p2, t2, p3, t3)
+    w = W.World(W.NOW)
+    b = W.build(sh, w, P, TT, None, normalise=True)
+    S = W.stale_oracle(sh, P, TT, hf, ft)
+    calls, writes, reads = W.expected_events(sh, S, sh.out)
+    if W.missing_needed(sh, P, S, calls, reads):
+        return True  # a needed value is missing and cannot be rebuilt: a failing run (C05 covers it)
+    ftv = W.FT(ft) if hf else None
+    out_arg = b.nodes[sh.out] if sh.out is not None else None
+    phys, onode = uberjob.run(b.plan, registry=b.reg, output=out_arg, dry_run=True, fresh_time=ftv, progress=None, max_workers=1)
+    if any(k != "m" for k, _ in w.log):
+        return False
+    g = phys.graph
+    idx = _phys_index(g, b, sh)
+    if idx is None:
+        return False
+    wn, rn = idx
+    executed = set(calls)
+    # (1) exactly the rebuilt stored values have a write call; a read call exists exactly for the values some executed
+    #     consumer / the output takes
+    if sorted(wn) != writes or sorted(rn) != reads:
+        return False
+    for j in range(sh.n):
+        if (b.nodes[j] in g) != (j in executed and sh.roles[j] != "src"):
+            return False
+    for j in writes:
+        # the write call takes the in-memory result of the call it stores
+        args, _kw = uberjob.graph.get_argument_nodes(g, wn[j])
+        if len(args) != 2 or args[1] is not b.nodes[j]:
+            return False
+        # (2) write(j) -> read(j): written, then read back
+        if j in rn and not _reach(g, wn[j], rn[j]):
+            return False
+    # (3) every executed consumer takes the value from the read node under the same edge key; a node that merely
+    #     depends on a rebuilt value waits for its write; nobody is wired to the in-memory result of a stored call
+    for (i, j, kind) in sh.edges:
+        if j not in executed and not (sh.roles[j] == "src" and S[j]):
+            continue
+        if not sh.registered[i]:
+            continue
+        tgt = b.nodes[j]
+        if kind == "a":
+            if i not in rn or not g.has_edge(rn[i], tgt) or (b.nodes[i] in g and g.has_edge(b.nodes[i], tgt)):
+                return False
+        elif i in wn:
+            if sh.roles[j] == "src":
+                # stale dependent source: it is its read-back that has to wait
+                if j in rn and not _reach(g, wn[i], rn[j]):
+                    return False
+            elif not _reach(g, wn[i], tgt):
+                return False
+    # argument positions preserved: the consumer's argument list in the physical plan = read nodes / calls in order
+    for j in executed:
+        if sh.roles[j] == "src":
+            continue
+        args, _kw = uberjob.graph.get_argument_nodes(g, b.nodes[j])
+        want = [rn.get(i) if sh.registered[i] else b.nodes[i] for i, k in sh.preds[j] if k == "a"]
+        if len(args) != len(want) or any(x is not y for x, y in zip(args, want)):
+            return False
+    # (4) downstream rebuilt values are rebuilt after upstream ones
+    for m in writes:
+        for n in sh.near(m):
+            if n in wn and not _reach(g, wn[n], wn[m]):
+                return False
+    # (5) an out-of-date dependent source is read only after the calls it depends on have run
+    for s in range(sh.n):
+        if sh.roles[s] == "src" and S[s] and s in rn:
+            for p_, _k in sh.preds[s]:
+                if sh.registered[p_]:
+                    if p_ in wn and not _reach(g, wn[p_], rn[s]):
+                        return False
+                elif p_ not in executed or not _reach(g, b.nodes[p_], rn[s]):
+                    return False
+    # (6) the output is the read node of a stored output
+    if sh.out is not None:
+        if sh.registered[sh.out]:
+            if onode is not rn.get(sh.out):
+                return False
+        elif onode is not b.nodes[sh.out]:
+            return False
+    elif onode is not None:
+        return False
+    # ---- the real run: what consumers / the output receive is what read() returned
+    try:
+        out = W.run(b, sh, w, fresh_time=ftv)
+    except uberjob.CallError:
+        return False
+    if sh.out is not None and out != b.scratch[sh.out]:
+        return False
+    for j in writes:
+        if b.stores[j].val != b.scratch[j][1]:  # raw value computed from normalised inputs
+            return False
+    pos = {}
+    for i_, ev_ in enumerate(w.log):
+        pos.setdefault(ev_, i_)
+    for j in writes:
+        if ("w", j) not in pos or (j in reads and not (pos[("w", j)] < pos.get(("r", j), -1))):
+            return False
+        if not (pos.get(("c", j), 1 << 30) < pos[("w", j)]):
+            return False
+    for (i, j, kind) in sh.edges:
+        if j in executed and sh.roles[j] != "src" and sh.registered[i]:
+            if kind == "a" and not (pos.get(("r", i), 1 << 30) < pos[("c", j)]):
+                return False
+            if kind == "d" and i in writes and not (pos[("w", i)] < pos[("c", j)]):
+                return False
+    return ok()
